@@ -48,6 +48,9 @@ def run(c, facts, tier):
         "returning the family's Unsupported* error carrying the Debug rendering of the construct. Sibling tables (placeholder/snippet) partition identically, every CResult-returning call is "
         "propagated with `?`, both operands of every operator are compiled on every non-error path, and no arm emits a placeholder or depends on the build profile."
     )
+    from .. import report as _rep
+
+    _rep.require(c, facts, "c06", "C12.partition", "parse", "an unsupported primary written in the text reaches the tree", lambda o: o["rule"] in ("C06.quoting", "C06.api", "C06.blank-set"), "a primary can only be refused if it is not swallowed by the argument before it: decided by the C06 rules on word boundaries and the glue")
     c.decided = ["fails exactly when an unsupported construct occurs at any depth", "error names the construct", "nothing omitted / replaced by a constant / left as a placeholder", "supported-only expressions compile"]
     tabs = {k: codegen.table(facts, k) for k in FAMILY}
     total = 0
